@@ -63,9 +63,11 @@ def run(repo, chk):
     memo_get = [n for n in ast.walk(loop) if isinstance(n, ast.Assign) and norm(n) == "capmap = _selector_fit_cache.get(cachekey)"]
     key = [n for n in ast.walk(loop) if isinstance(n, ast.Assign) and norm(n) == "cachekey = (fn, selector)"]
     miss = [n for n in ast.walk(loop) if isinstance(n, ast.If) and norm(n.test) == "capmap is None"]
-    ok = bool(memo_get) and bool(key) and len(miss) == 1 and "capmap = fits_selector(fn, selector)" in " ".join(norm(s) for s in miss[0].body) \
-        and "_selector_fit_cache[cachekey] = capmap" in " ".join(norm(s) for s in miss[0].body)
-    chk.ob("R03.3", "overlay.HandlerCollection.proceed:memo", ok, pr.where, "the fit is memoised per (function, selector); a miss (None) is computed and stored, False means 'does not fit'")
+    ok = bool(memo_get) and bool(key) and len(miss) == 1 and "capmap = fits_selector(fn, selector)" in " ".join(norm(s) for s in miss[0].body)
+    stores = [n for n in ast.walk(loop) if isinstance(n, ast.Assign) and norm(n.targets[0]).startswith("_selector_fit_cache[")]
+    ok = ok and all(norm(n) == "_selector_fit_cache[cachekey] = capmap" and any(n is x for b in miss[0].body for x in ast.walk(b)) for n in stores)
+    chk.ob("R03.3", "overlay.HandlerCollection.proceed:memo", ok, pr.where,
+           "the fit is looked up per (function, selector); a miss (None) is computed by fits_selector (and, if stored, stored under the same key), False means 'does not fit'")
     fs = repo.func("overlay.fits_selector")
     body = fs.node.body
     first_if = next((n for n in body if isinstance(n, ast.If)), None)
